@@ -5,7 +5,10 @@ from vf.core import Suite, coq_list, coq_bool
 from vf.gen import pick_weighted
 
 ID = "C21"
-THEOREMS = []
+THEOREMS = ["C21_checker_sound", "C21_setobj_safe", "C21_packwrite_safe", "C21_rmref_safe",
+            "C21_setref_refuted", "C21_setref_partial", "C21_casref_refuted", "C21_casref_partial",
+            "C21_setindex_refuted", "C21_setindex_partial", "C21_setconfig_refuted", "C21_setconfig_partial",
+            "C21_setshallow_refuted", "C21_setshallow_partial"]
 MODEL_FILES = ["Gc.v", "Crash.v"]
 MODELLED = ("the filesystem mutation sequences of: dotgit ObjectWriter (loose object), PackWriter.save (idx, rev, promisor marker, pack rename), "
             "DotGit.SetRef/setRefRwfs with and without old value, RemoveRef/rewritePackedRefsWithoutRef, PackRefs, IndexStorage.SetIndex, "
@@ -186,14 +189,14 @@ class Main(Suite):
     name = "main"
     go_cmd = "c21"
     coq_imports = "From GoGit Require Import Model.Gc Model.Crash."
-    quick_n = 110
+    quick_n = 90
     thorough_n = 2500
     coq_chunk = 30
     impl_env = {"TMPDIR": "/dev/shm"} if os.path.isdir("/dev/shm") else None
 
     def gen(self, rng, n, tier):
         cases = []
-        nf = 6 if tier == "quick" else 400
+        nf = 3 if tier == "quick" else 300
         for i in range(n):
             b = pick_weighted(rng, [(6, "mixed"), (2, "packedrefs"), (2, "stale"), (2, "shallow")])
             c = gen_case(rng, b)
@@ -286,7 +289,13 @@ class Main(Suite):
 
     def oracle(self, ctx, cases, impl, model):
         fails = {}
-        outs = ctx.coq_eval(self.coq_imports, [self.verdict_expr(c) for c in cases], chunk=self.coq_chunk)
+        # the model's verdicts are needed only where the implementation has a bad crash state (and on a small sample)
+        def has_bad(c):
+            ex = (impl.get(c["id"]) or {}).get("extra") or {}
+            return not ex.get("initial", True) or any(not (v[0] and v[1]) for v in ex.get("verdicts") or [])
+        need = [c for k, c in enumerate(cases) if has_bad(c) or k % 10 == 0]
+        got = dict(zip([c["id"] for c in need], ctx.coq_eval(self.coq_imports, [self.verdict_expr(c) for c in need], chunk=self.coq_chunk)))
+        outs = [got.get(c["id"]) for c in cases]
         self.stats = {"states": 0, "bad_states": 0, "model_conservative": 0, "model_verdicts_missing": 0}
         for c, mo in zip(cases, outs):
             r = impl.get(c["id"])
@@ -307,7 +316,7 @@ class Main(Suite):
                 toks = re.findall(r"true|false", mo)
                 if len(toks) == len(iv):
                     mv = [t == "true" for t in toks]
-            if mv is None:
+            if mv is None and c["id"] in got:
                 self.stats["model_verdicts_missing"] += 1
             self.stats["states"] += ex.get("states", 0)
             unexpected, predicted = [], []
